@@ -78,8 +78,29 @@ def lem_range(ex, state, q, s, i):
     return VBool(z3.Implies(z3.And(0 <= q, q <= 8, i >= 0), z3.And(0 <= utf8_run(q, s.t, i), utf8_run(q, s.t, i) <= 8)))
 
 
+def lem_prefix(ex, state, q, a, b, i):
+    """instance of L3: 0 <= i <= |a| ==> run(q, a+b, i) == run(q, a, i)"""
+    from pyvc.values import VBool
+    ensure_defined()
+    q, i = ex.num(q), ex.num(i)
+    return VBool(z3.Implies(z3.And(0 <= i, i <= z3.Length(a.t)),
+                            utf8_run(q, z3.Concat(a.t, b.t), i) == utf8_run(q, a.t, i)))
+
+
+def lem_composition(ex, state, q, a, b, j):
+    """instance of L4: 0 <= j <= |b| ==> run(run(q,a,|a|), b, j) == run(q, a+b, |a|+j)"""
+    from pyvc.values import VBool
+    ensure_defined()
+    q, j = ex.num(q), ex.num(j)
+    na = z3.Length(a.t)
+    return VBool(z3.Implies(z3.And(0 <= j, j <= z3.Length(b.t)),
+                            utf8_run(utf8_run(q, a.t, na), b.t, j) == utf8_run(q, z3.Concat(a.t, b.t), na + j)))
+
+
 def build(reg):
     reg.native_spec("utf8_run", sym_utf8_run)
+    reg.lemma_fn("utf8_run_prefix", lem_prefix)
+    reg.lemma_fn("utf8_run_composition", lem_composition)
     reg.lemma_fn("utf8_run_absorbing", lem_absorbing)
     reg.lemma_fn("utf8_run_range", lem_range)
     reg.shape("Utf8ValidatorPy", cls=PY, fields={"_state": "int", "_index": "int", "_codepoint": "int"})
@@ -120,6 +141,7 @@ def build(reg):
         ]}},
         **common)
     build_c(reg)
+    build_lemmas(reg)
 
 
 CMOD = "cnvx._utf8validator"
@@ -206,6 +228,51 @@ def build_c(reg):
                  ensures=["self._vld.state == to_table(START)", "self._vld.total_index == 0"], **common)
 
 
+def build_lemmas(reg):
+    """chunk lemma (segmentation independence), once per implementation, over the units' contracts"""
+    common = dict(props=["C09"], spec_module="specs.utf8")
+    for name, shape, st, ix in (("py", "Utf8ValidatorPy", "_state", "_index"),
+                                ("nvx", "Utf8ValidatorNvx", "_vld.state", "_vld.total_index")):
+        Q = "from_table(old(v.%s))" % st
+        reg.contract(
+            "specs.utf8_lemmas:chunk_lemma", name="C09/lemma/chunk-independence[%s]" % name,
+            params={"v": "obj:" + shape, "w": "obj:" + shape, "a": "bytes", "b": "bytes"},
+            returns="any",
+            requires=["v.%s == w.%s and v.%s == w.%s" % (st, st, ix, ix), "0 <= v.%s <= 8" % st, "0 <= v.%s" % ix,
+                      "v.%s + len(a) + len(b) < 2**64 and len(a) + len(b) < 2**63" % ix],
+            modifies=["v.*", "w.*", "v._vld.*", "w._vld.*"] if name == "nvx" else ["v.*", "w.*"],
+            ensures=[
+                # same final verdict, same boundary flag, same total position, same carried context
+                "result[1][0] == result[2][0]",
+                "result[1][1] == result[2][1]",
+                "result[1][3] == result[2][3]",
+                "v.%s == w.%s" % (st, st),
+                # if the first chunk is already rejected, the split run stays rejected
+                "implies(not result[0][0], not result[1][0])",
+            ],
+            hints=[
+                "utf8_run_range(%s, a, len(a))" % Q,
+                "utf8_run_composition(%s, a, b, len(b))" % Q,
+                "utf8_run_composition(%s, a, b, result[1][2])" % Q,
+                "utf8_run_composition(%s, a, b, result[1][2] + 1)" % Q,
+                "utf8_run_composition(%s, a, b, result[2][2] - len(a))" % Q,
+                "utf8_run_composition(%s, a, b, result[2][2] - len(a) + 1)" % Q,
+                "utf8_run_prefix(%s, a, b, result[0][2])" % Q,
+                "utf8_run_prefix(%s, a, b, result[0][2] + 1)" % Q,
+                "utf8_run_prefix(%s, a, b, result[2][2])" % Q,
+                "utf8_run_prefix(%s, a, b, result[2][2] + 1)" % Q,
+                "utf8_run_prefix(%s, a, b, len(a))" % Q,
+                "utf8_run_absorbing(%s, a, result[2][2] + 1, result[0][2])" % Q,
+                "utf8_run_absorbing(%s, a, result[2][2] + 1, len(a))" % Q,
+                "utf8_run_absorbing(%s, a + b, result[0][2] + 1, result[2][2])" % Q,
+                "utf8_run_absorbing(%s, a + b, result[0][2] + 1, len(a) + len(b))" % Q,
+                "utf8_run_absorbing(%s, a + b, len(a) + result[1][2] + 1, result[2][2])" % Q,
+                "utf8_run_absorbing(%s, a + b, result[2][2] + 1, len(a) + result[1][2])" % Q,
+                "utf8_run_absorbing(%s, a + b, result[2][2] + 1, len(a))" % Q,
+                "utf8_run_absorbing(%s, a + b, len(a) + result[1][2] + 1, len(a) + len(b))" % Q,
+            ], **common)
+
+
 def extra_checks(tier, seed):
     ensure_defined()
     out = []
@@ -234,3 +301,73 @@ def extra_checks(tier, seed):
                            lambda j: z3.Implies(j <= z3.Length(b), utf8_run(utf8_run(q, a, na), b, j) == utf8_run(q, ab, na + j)),
                            axioms=[])
     return out
+
+
+# ------------------------------------------------------------------------------------------ replay
+def expected(state, index, data):
+    """what the property demands of validate() (reference: the RFC 3629 step function of specs/utf8.py)"""
+    from specs import utf8 as U
+    q = U.from_table(state)
+    if state == 1:
+        return (False, False, 0, index)
+    for k, b in enumerate(data):
+        q = U.rfc3629_step(q, b)
+        if q == U.REJECT:
+            return (False, False, k, index + k)
+    return (True, q == U.START, len(data), index + len(data))
+
+
+def run_real(impl, state, index, data):
+    """impl: 'py' (pure Python class, AUTOBAHN_USE_NVX=0) | 'c-table' | 'c-unrolled' (working-tree C via ctypes)"""
+    from pyvc import replaylib as R
+    if impl == "py":
+        code = ("import json\nfrom autobahn.websocket.utf8validator import Utf8Validator\n"
+                "v = Utf8Validator(); v._state = %d; v._index = %d\n"
+                "r = v.validate(%r)\nprint(json.dumps([bool(r[0]), bool(r[1]), int(r[2]), int(r[3])]))" % (state, index, bytes(data)))
+        out = R.run_py(code, env={"AUTOBAHN_USE_NVX": "0"})
+        return tuple(out) if isinstance(out, list) else out
+    import ctypes
+    so = R.build_c("src/autobahn/nvx/_utf8validator.c", "utf8vld")
+    try:
+        lib = ctypes.CDLL(so)
+
+        class S(ctypes.Structure):
+            _fields_ = [("current_index", ctypes.c_size_t), ("total_index", ctypes.c_size_t), ("state", ctypes.c_int),
+                        ("impl", ctypes.c_int)]
+        s = S(0, index, state, 0)
+        fn = getattr(lib, "_nvx_utf8vld_validate_table" if impl == "c-table" else "_nvx_utf8vld_validate_unrolled")
+        fn.argtypes = [ctypes.c_void_p, ctypes.c_char_p, ctypes.c_size_t]
+        fn.restype = ctypes.c_int
+        res = fn(ctypes.byref(s), bytes(data), len(data))
+        return (res >= 0, res == 0, int(s.current_index), int(s.total_index))
+    finally:
+        import os
+        os.unlink(so)
+
+
+def replay(o):
+    from pyvc import replaylib as R
+    inp = o.get("inputs") or {}
+    unit = o.get("unit") or o.get("name", "")
+    if "utf8validator:Utf8Validator.validate" in unit and "nvx" not in unit:
+        impl, st, idx, data = "py", inp.get("self._state"), inp.get("self._index"), R.to_bytes(inp.get("ba"))
+    elif "_nvx_utf8vld_validate_table" in unit:
+        impl, st, idx, data = "c-table", inp.get("utf8vld.state"), inp.get("utf8vld.total_index"), R.to_bytes(inp.get("data"))
+    elif "_nvx_utf8vld_validate_unrolled" in unit:
+        impl, st, idx, data = "c-unrolled", inp.get("utf8vld.state"), inp.get("utf8vld.total_index"), R.to_bytes(inp.get("data"))
+    else:
+        return {"reproduced": False, "detail": "no replay harness for this unit"}
+    if not isinstance(st, int) or not isinstance(idx, int):
+        return {"reproduced": False, "detail": "model gave no concrete state/index"}
+    got = run_real(impl, st, idx, data)
+    want = expected(st, idx, data)
+    return {"reproduced": tuple(got) != tuple(want) if isinstance(got, tuple) else False,
+            "impl": impl, "pre": {"state": st, "index": idx, "data": list(data)}, "got": got, "required": want,
+            "detail": "validate() on the real implementation vs the RFC 3629 reference"}
+
+
+def replay_known(k):
+    w = k["witness"]
+    got = run_real(w["impl"], w["state"], w["index"], bytes(w["data"]))
+    want = expected(w["state"], w["index"], bytes(w["data"]))
+    return {"reproduced": isinstance(got, tuple) and tuple(got) != tuple(want), "got": got, "required": want}
